@@ -424,3 +424,27 @@ Example C03_nonvacuous_direct_full :
     map (@length _) (map (fun p => fst p ++ snd p) (E2eEdges.model_el 4 false g)) = [1; 2].
 Proof. eexists. split; [vm_compute; reflexivity|]. repeat split; vm_compute; reflexivity. Qed.
 Print Assumptions C03_nonvacuous_direct_full.
+
+(* ==== the SHARDED pipeline (work package e2e-sharded) ============================================================= *)
+(* C03_edges_are_observed for the sharded pipeline model (msp -> per-shard filter / prune / compress_kmers -> combine ->
+   compress_graph), FULL, no checker: the graph holds exactly the retained k-mers, and the adjacencies it denotes - read off
+   the extension bytes ([graph_links]) as well as through find_edges ([graph_adjs] with the model's own edge lists; every
+   extension of the result resolves: C09_no_dangling_exts) - are exactly the (K+1)-windows of the reads whose two k-mers
+   are retained.  Guards: those of C04_sharded_assembly. *)
+From DBG Require Proofs.MspProofs Proofs.ShardProofs Proofs.E2eShardedCorollaries.
+Theorem C03_edges_are_observed_sharded : forall max_len K P perm st thr mode variant (lreads : list Pipeline.lread) orders bs gs g,
+  ShardProofs.params_ok max_len K P -> MspProofs.perm_ok P perm -> 4 <= K -> Forall ShardProofs.lread_ok lreads ->
+  Forall (@NoDup dna) orders -> variant <> 1%N ->
+  Pipeline.sharded max_len K P perm st thr mode variant lreads orders = Some (bs, gs, g) ->
+  Permutation.Permutation (PipelineCheck.graph_kmers K st g) (PipelineCheck.retained K st thr (map fst lreads)) /\
+  (forall w, In w (PipelineCheck.graph_links K st g) <-> In w (PipelineCheck.spec_links K st thr (map fst lreads))) /\
+  (forall w, In w (PipelineCheck.graph_links K st g) <-> In w (observed_adjs K st (N.to_nat thr) (map fst lreads))).
+Proof. exact E2eShardedCorollaries.edges_are_observed_sharded. Qed.
+Print Assumptions C03_edges_are_observed_sharded.
+Theorem C03_edges_are_observed_sharded_full : forall max_len K P perm st thr mode variant (lreads : list Pipeline.lread) orders bs gs g,
+  ShardProofs.params_ok max_len K P -> MspProofs.perm_ok P perm -> 4 <= K -> Forall ShardProofs.lread_ok lreads ->
+  Forall (@NoDup dna) orders -> variant <> 1%N ->
+  Pipeline.sharded max_len K P perm st thr mode variant lreads orders = Some (bs, gs, g) ->
+  edges_are_observed K st (N.to_nat thr) (map fst lreads) (g_seqs GraphCheck.pay g) (E_list (E2eEdges.model_el K st g)).
+Proof. exact E2eShardedCorollaries.edges_are_observed_sharded_full. Qed.
+Print Assumptions C03_edges_are_observed_sharded_full.
